@@ -9,6 +9,7 @@
 #include <sstream>
 #include <string>
 #include <vector>
+#include <deque>
 
 using namespace ArduinoJson;
 
@@ -153,5 +154,87 @@ struct CountingReader {
     while (i < length && pos < s->size()) { buffer[i++] = (*s)[pos++]; reads++; }
     if (i < length) { if (ended) fault = true; ended = true; }
     return i;
+  }
+};
+
+// ---- building a document from a canonical dump (inverse of dump()) through the public API ----
+struct DumpParser {
+  const std::string& d;
+  size_t i = 0;
+  explicit DumpParser(const std::string& s) : d(s) {}
+  std::string token() {
+    size_t j = i;
+    while (j < d.size() && d[j] != ',' && d[j] != ']' && d[j] != '}' && d[j] != ':') j++;
+    std::string t = d.substr(i, j - i);
+    i = j;
+    return t;
+  }
+  // string source kind used for values/keys: 0 = std::string (copied), 1 = const char* (linked, kept alive
+  // in `pool`), ... (C14 uses more kinds through its own code)
+  bool build(JsonVariant v, std::deque<std::string>* pool = nullptr, int kind = 0) {
+    if (i >= d.size()) return false;
+    char c = d[i];
+    if (c == '[') {
+      i++;
+      JsonArray a = v.to<JsonArray>();
+      if (d[i] == ']') { i++; return true; }
+      for (;;) {
+        JsonVariant e = a.add<JsonVariant>();
+        if (!build(e, pool, kind)) return false;
+        if (d[i] == ',') { i++; continue; }
+        if (d[i] == ']') { i++; return true; }
+        return false;
+      }
+    }
+    if (c == '{') {
+      i++;
+      JsonObject o = v.to<JsonObject>();
+      if (d[i] == '}') { i++; return true; }
+      for (;;) {
+        std::string k = unhex(token());
+        if (d[i] != ':') return false;
+        i++;
+        JsonVariant slot;
+        if (kind == 1 && pool && k.find('\0') == std::string::npos) {
+          pool->push_back(k);
+          slot = o[pool->back().c_str()].to<JsonVariant>();
+        } else {
+          slot = o[k].to<JsonVariant>();
+        }
+        if (!build(slot, pool, kind)) return false;
+        if (d[i] == ',') { i++; continue; }
+        if (d[i] == '}') { i++; return true; }
+        return false;
+      }
+    }
+    std::string t = token();
+    if (t == "n") { v.set(nullptr); return true; }
+    if (t == "t") { v.set(true); return true; }
+    if (t == "f") { v.set(false); return true; }
+    if (t[0] == 'i') {
+      if (t[1] == '-') v.set((long long)std::stoll(t.substr(1)));
+      else v.set((unsigned long long)std::stoull(t.substr(1)));
+      return true;
+    }
+    if (t[0] == 'F') {
+      uint32_t b = t == "Fnan" ? 0x7fc00000u : (uint32_t)std::stoul(t.substr(1), nullptr, 16);
+      float f; memcpy(&f, &b, 4); v.set(f); return true;
+    }
+    if (t[0] == 'D') {
+      uint64_t b = t == "Dnan" ? 0x7ff8000000000000ull : (uint64_t)std::stoull(t.substr(1), nullptr, 16);
+      double f; memcpy(&f, &b, 8); v.set(f); return true;
+    }
+    if (t[0] == 's') {
+      std::string s = unhex(t.substr(1));
+      if (kind == 1 && pool && s.find('\0') == std::string::npos) {
+        pool->push_back(s);
+        v.set(pool->back().c_str());
+      } else {
+        v.set(s);
+      }
+      return true;
+    }
+    if (t[0] == 'r') { v.set(serialized(unhex(t.substr(1)))); return true; }
+    return false;
   }
 };
